@@ -126,11 +126,22 @@ def main():
                         if p.returncode != 0:
                             machinery.append({"leanchecker": (p.stdout + p.stderr)[-1500:]})
         # ---- tie X and the property oracle
+        # A harness function that crashes on the current tree could not establish its obligation (a change of the
+        # code can make results take a shape the harness does not expect): that is a broken obligation, searched
+        # like any other, never silently an "ok".  On the unchanged tree these functions run clean.
         if driver_ok:
-            mod.correspondence(ctx)
+            try:
+                mod.correspondence(ctx)
+            except Exception:
+                tb = traceback.format_exc()
+                broken.append({"obligation": "correspondence could not be established (harness exception)", "detail": tb[-1500:]})
         corr_fail = [f for f in ctx.failures if f["kind"] == "correspondence"]
         boost = bool(broken or corr_fail)
-        mod.oracle(ctx, boost)
+        try:
+            mod.oracle(ctx, boost)
+        except Exception:
+            tb = traceback.format_exc()
+            broken.append({"obligation": "property oracle could not be evaluated (harness exception)", "detail": tb[-1500:]})
     except Exception:
         traceback.print_exc()
         print(f"MACHINERY-ERROR property={prop}")
